@@ -286,7 +286,7 @@ def eval_gmrf_pair(cell):
         z0b, Tb, affb = maps[1]
         tol_st = max(1e-7, 1e3 * TOL * float(np.linalg.norm(x0s[1])))
         why = None
-        if not (aff and affb):
+        if not aff:
             why = "the draw is not an affine function of the perturbation"
         elif not close(z0, mean_ref, 1e-7):
             why = "offset of the draw %s != posterior mean %s" % (z0, mean_ref)
